@@ -29,7 +29,7 @@ CHECKS = {
             "evaluation) and of NFARegexBuilder + differential correspondence against /repo via extracted model",
             "Proved for all ASTs, alphabets and words (unbounded): the built NFA accepts exactly the denotation for literals, wildcard, "
             "| & ^, concatenation, * + ? and {lo,hi} {lo,} {,hi} with every bound shape (C10_build_lang, with the fragment invariant "
-            "C10_fragment_invariant); NFA.from_regex as a whole returns a valid NFA with the denoted language (C10_from_regex_sound); "
+            "C10_fragment_invariant); NFA.from_regex as a whole returns a valid NFA with the denoted language (C10_from_regex_sound) and cannot fail on literals of the alphabet (C10_from_regex_total); "
             "parsing the minimal-parenthesis printing of any AST returns the AST (precedence postfix > concatenation > binary, left "
             "associative), a redundant outer pair of parentheses and blanks at token boundaries change nothing. Partial: printing is at "
             "token level (no decimal rendering of bounds to characters); redundant parentheses are proved for the outer pair only, inner "
@@ -39,7 +39,7 @@ CHECKS = {
     "C11": ("Coq theorems about the same regex front-end model and a model of regex.py's helpers + differential correspondence "
             "(exhaustive small token sequences) against /repo via extracted model",
             "Proved for all character strings (unbounded): what regex.validate accepts goes through the whole front end without error "
-            "(C11_validated_compiles), what it refuses from_regex refuses with the same regex error type (C11_invalid_is_regex_error), "
+            "(C11_validated_compiles; C11_validated_from_regex_ok: from_regex then returns an NFA unless a literal is a lone brace / outside the given alphabet), what it refuses from_regex refuses with the same regex error type (C11_invalid_is_regex_error), "
             "what compiles validates (C11_compiles_validates); isequal/issubset/issuperset over a common alphabet answer exactly "
             "equality/inclusion of the denotations whenever they answer (C11_*_exact, resting on the verified comparator nfa_diff) and "
             "fail only as one of the two from_regex calls fails. Partial: 'validated iff in the grammar' is proved in one direction "
